@@ -89,8 +89,10 @@ class YncaProtocol(serial.threaded.LineReader):
         if self._send_thread:
             self._send_thread.join(2)
 
-        if self._disconnect_callback:
-            self._disconnect_callback()
+        # close() on another thread may clear the callback at any moment: read it once
+        disconnect_callback = self._disconnect_callback
+        if disconnect_callback:
+            disconnect_callback()
 
     def handle_line(self, line):
         ignore = False
